@@ -36,11 +36,12 @@ CHECKS = {
                 "Content-Type, reset before/inside the body, server-side corruption, wrong reported checksum}, and gpg dying / failing / "
                 "absent; after each run the cloud namespace (no final-named object unless it decrypts to the local backup; pre-existing "
                 "object untouched; no direct write under a final name), the error report, attempts for the remaining backups, run time "
-                "and the process table are examined; for Dropbox the outcome (temporary left, final present, success) is compared with the "
-                "extracted upload machine.",
+                "and the process table are examined; for every provider the outcome of the disturbed upload (temporary left, number of "
+                "final-named objects, success) is compared with the extracted upload machine of that provider.",
         "note": "Partial: the emulator is this check's reading of the provider APIs; thread interleavings are those that arise in the "
-                "runs (the LTS theorem covers all interleavings of the model, not of the code); Yandex / Google machines are proved but "
-                "compared with the code only through the property evaluation, not step by step.",
+                "runs (the LTS theorem covers all interleavings of the model, not of the code); the machines are compared with the code "
+                "on Ok / Fail replies (the Pending / Async replies of Yandex operations are in the model and its theorems but not yet "
+                "driven through the emulator).",
         "technique": "Coq proof (upload machines under an arbitrary reply oracle; pipeline LTS by reflection) + fault sweep of the real "
                      "binary against a provider emulator",
         "design": "7/C05",
